@@ -69,46 +69,66 @@ class WorkerDied(Exception):
         self.item = item
 
 
+_FLAGS = None
+
+
+def _tracked(args):
+    fn, i, slot, x = args
+    if _FLAGS is not None:
+        _FLAGS[slot] = 1
+    r = fn(x)
+    if _FLAGS is not None:
+        _FLAGS[slot] = 2
+    return i, r
+
+
 def _run_pool(fn, items, procs, daemon_ok=True):
     """map over a process pool that notices dead workers (multiprocessing.Pool.map would hang for ever);
-    returns (results dict index -> value, indices that were not finished when the pool broke)"""
+    returns (results dict index -> value, indices lost when the pool broke, indices that were being evaluated then)"""
+    global _FLAGS
     from concurrent.futures import ProcessPoolExecutor, as_completed
     from concurrent.futures.process import BrokenProcessPool
 
     done, lost = {}, []
-    with ProcessPoolExecutor(max_workers=procs, mp_context=mp.get_context("fork"), initializer=_pool_init) as ex:
-        futs = {ex.submit(fn, x): i for i, x in items}
-        for f in as_completed(futs):
-            i = futs[f]
-            try:
-                done[i] = f.result()
-            except BrokenProcessPool:
-                lost.append(i)
-    return done, sorted(lost)
+    ctxm = mp.get_context("fork")
+    _FLAGS = ctxm.Array("b", len(items), lock=False)   # inherited by the forked workers
+    try:
+        with ProcessPoolExecutor(max_workers=procs, mp_context=ctxm, initializer=_pool_init) as ex:
+            futs = {ex.submit(_tracked, (fn, i, slot, x)): (i, slot) for slot, (i, x) in enumerate(items)}
+            for f in as_completed(futs):
+                i, slot = futs[f]
+                try:
+                    done[i] = f.result()[1]
+                except BrokenProcessPool:
+                    lost.append(i)
+        suspects = sorted(i for f, (i, slot) in futs.items() if i not in done and _FLAGS[slot] == 1)
+    finally:
+        _FLAGS = None
+    return done, sorted(lost), suspects
 
 
-def pmap(fn, items, procs):
+def pmap(fn, items, procs, on_died=None):
+    """`on_died(item)` may supply a replacement result for an item whose evaluation kills its worker process"""
     items = list(items)
     if procs <= 1 or len(items) < 4:
         return [fn(x) for x in items]
     pending = list(enumerate(items))
     results = {}
-    rounds = 0
     while pending:
-        rounds += 1
-        # after two broken pools the remaining items run one per pool, so that the culprit is identified
-        width = procs if rounds <= 2 else 1
-        if width > 1:
-            done, lost = _run_pool(fn, pending, width)
-            results.update(done)
-            pending = [(i, items[i]) for i in lost]
-        else:
-            for i, x in pending:
-                done, lost = _run_pool(fn, [(i, x)], 1)
-                if lost:
-                    raise WorkerDied(x)
-                results.update(done)
-            pending = []
+        done, lost, suspects = _run_pool(fn, pending, procs)
+        results.update(done)
+        # the items that were being evaluated when a worker died run one per pool, so that the culprit is identified
+        for i in suspects:
+            d1, l1, _s = _run_pool(fn, [(i, items[i])], 1)
+            if l1:
+                if on_died is None:
+                    raise WorkerDied(items[i])
+                results[i] = on_died(items[i])
+            else:
+                results.update(d1)
+        if lost and not suspects:
+            raise WorkerDied("unknown item (a worker died outside an evaluation)")
+        pending = [(i, items[i]) for i in lost if i not in results]
     return [results[i] for i in range(len(items))]
 
 
